@@ -6,8 +6,8 @@ KERNELS, HARNESS, TAG, UNITS, API, RUNTIME_MODEL = base.KERNELS, base.HARNESS, b
 LMAX = {"quick": 3, "thorough": 4}
 EXPLANATION = ("Bounded model checking (engine K, see C16) of the strict decimal grammar and of the conversion / trimming round-trip clauses that do not pass through iostream formatting: the two number recognisers are compared with a "
                "reference automaton of the documented grammar written in the harness (acceptance sets equal for every byte string of the length, every decimal and exponent character), number conversion is shown to raise the library's exception "
-               "exactly when the recogniser rejects (and nothing else ever escapes), and the leading / trailing / surrounding white-space and trailing new-line removers are shown idempotent (the two removers that build their result through a back-inserter gave no verdict within 10 minutes and are outside).")
-FUNCTIONS = ["TextTools::{isDecimalNumber,isDecimalInteger,isEmpty,toInt,toDouble,removeSurroundingWhiteSpaces,removeFirstWhiteSpaces,removeLastWhiteSpaces,removeWhiteSpaces,removeNewLines,removeLastNewLines}"]
+               "exactly when the recogniser rejects (and nothing else ever escapes), a single key=value item is split at the first separator so that re-joining gives the input back, and the leading / trailing / surrounding white-space and trailing new-line removers are shown idempotent (the two removers that build their result through a back-inserter gave no verdict within 10 minutes and are outside).")
+FUNCTIONS = ["KeyvalTools::singleKeyval", "TextTools::{isDecimalNumber,isDecimalInteger,isEmpty,toInt,toDouble,removeSurroundingWhiteSpaces,removeFirstWhiteSpaces,removeLastWhiteSpaces,removeWhiteSpaces,removeNewLines,removeLastNewLines}"]
 BOUNDS = "all byte strings of length 0..3 (quick) / 0..4 (thorough) for the grammar and the conversion equivalence, 0..2 for idempotence (quick: lengths 0 and 2, three removers); every decimal / exponent character that is not a digit or a sign; loop unwinding 10 with unwinding assertions"
 OUTSIDE = ["the value returned by toInt/toDouble and 'numbers formatted with sufficient precision parse back' (iostream formatting/extraction: opaque in the model)", "tokenising and re-joining, nested tokenising, key-value procedures, argument substitution, wildcard matching, variable resolution, tables, distribution descriptions "
            "(std::deque / std::map / iostream based code: no verdict from CBMC within reach, measured in the design phase)", "strings longer than 4 bytes"]
@@ -21,6 +21,8 @@ JOBS = [
     KJob("harness_recognisers", [4], tiers=("thorough",), timeout_s=900),
     KJob("harness_toInt", range(0, 4), copy_unwind=100, desc="toInt raises the library's exception iff isDecimalInteger rejects"),
     KJob("harness_toDouble", range(0, 4), copy_unwind=100, desc="toDouble raises iff isDecimalNumber rejects"),
+    KJob("harness_keyval", [0, 2], copy_unwind=120, timeout_s=600, desc="key=value splitting: accepted iff the separator occurs; key + separator + value gives the input back"),
+    KJob("harness_keyval", [1, 3], copy_unwind=120, timeout_s=600, tiers=("thorough",)),
     KJob("harness_trim_idempotent", [0, 2], variants=[["WHICH=1"], ["WHICH=2"], ["WHICH=5"]], timeout_s=400, desc="trimming twice = trimming once (leading / trailing white space, trailing new lines)"),
     KJob("harness_trim_idempotent", [1], variants=[["WHICH=0"], ["WHICH=1"], ["WHICH=2"], ["WHICH=5"]], timeout_s=900, tiers=("thorough",), desc="idempotence, remaining lengths and the surrounding-white-space remover"),
     KJob("harness_trim_idempotent", [0, 2], variants=[["WHICH=0"]], timeout_s=900, tiers=("thorough",)),
